@@ -47,13 +47,13 @@ def HandMade():
   """[(name, prog, well typed?, determined?, {pred: {col: type}} or None)]"""
   out = []
 
-  def Add(name, preds, ok, det=None, sig=None):
+  def Add(name, preds, ok, det=None, sig=None, with_e=True):
     if det is None:
       det = ok
-    if sig is not None:
+    if sig is not None and with_e:
       sig = dict(sig)
       sig['E'] = ESIG
-    out.append((name, Prog([E()] + preds), ok, det, sig))
+    out.append((name, Prog(([E()] if with_e else []) + preds), ok, det, sig))
 
   lt = Cmp(Op('<', X, Lit(N(2))))
   Add('basic', [P1('P', [('col0', X, ''), ('col1', Y, '')], [Exy(), lt])],
@@ -198,6 +198,60 @@ def HandMade():
       [P1('P', [('col0', Op('++', Var('v'), Lit(S('u'))), '')],
           [Atom('Q', [('col0', Var('v'))])]),
        Pred('Q', [Rule([('col0', X, '')], [Exy()])])], False)
+  # rule order / declaration order through a multi-rule predicate whose later
+  # rule calls a predicate behind a dependency chain (every arrangement is a
+  # state of LTypingLemma)
+  def Chain(last_type_str):
+    v = Var('v')
+    known = P1('Known', [('col0', Y if last_type_str else X, '')],
+               [Exy(), Cmp(Op('>', X, Lit(N(1))))])
+    deep = P1('Deep', [('col0', v, '')], [Atom('Known', [('col0', v)])])
+    label = Pred('Label', [Rule([('col0', X, '')], [Exy()]),
+                           Rule([('col0', v, '')],
+                                [Atom('Deep', [('col0', v)])])])
+    return [known, deep, label]
+  Add('rule_order_clash_through_later_call', Chain(True), False)
+  Add('rule_order_same_type_through_later_call', Chain(False), True,
+      sig={'Known': {'col0': NUM}, 'Deep': {'col0': NUM},
+           'Label': {'col0': NUM}})
+  # open-record parameter: what the callers pass never changes the callee
+  rr = Var('r')
+  price = Pred('Price', [Rule([('col0', rr, ''),
+                               ('logica_value',
+                                Op('*', Sub(rr, 'amount'), Lit(N(2))), '')])],
+               inline=True)
+  psig = {'col0': ['O', {'amount': NUM}], 'logica_value': NUM}
+
+  one, ss = Lit(N(1)), Lit(S('s'))
+
+  def Caller(name, fields):
+    return P1(name, [('col0', PCall('Price', [('col0', RecE(fields))]), '')],
+              [])
+  Add('open_record_two_wider_callers',
+      [price, Caller('A', [('amount', one), ('currency', ss)]),
+       Caller('B', [('shop', ss), ('amount', Lit(N(3)))])],
+      True, sig={'Price': psig, 'A': {'col0': NUM}, 'B': {'col0': NUM}},
+      with_e=False)
+  Add('open_record_caller_lacks_field',
+      [price, Caller('A', [('amount', one), ('currency', ss)]),
+       Caller('B', [('shop', ss)])], False, with_e=False)
+  Add('open_record_caller_field_type',
+      [price, Caller('A', [('amount', ss), ('currency', ss)])], False,
+      with_e=False)
+  # one record variable read from two predicates
+  def RecTable(name, a_val):
+    return Pred(name, [Rule([('col0', RecE([('a', Lit(a_val)),
+                                            ('b', Lit(S('x')))]), '')]),
+                       Rule([('col0', RecE([('b', Lit(S('z'))),
+                                            ('a', Lit(a_val))]), '')])])
+  join = P1('J', [('col0', Sub(rr, 'b'), '')],
+            [Atom('Q', [('col0', rr)]), Atom('S', [('col0', rr)])])
+  Add('record_join_field_types_differ',
+      [RecTable('Q', N(1)), RecTable('S', S('s')), join], False, with_e=False)
+  Add('record_join_same_types',
+      [RecTable('Q', N(1)), RecTable('S', N(2)), join], True,
+      sig={'Q': {'col0': R(a=NUM, b=STR)}, 'S': {'col0': R(a=NUM, b=STR)},
+           'J': {'col0': STR}}, with_e=False)
   return out
 
 
